@@ -56,7 +56,7 @@ def witness_still_fails(entry):
     return r == z3.unsat
 
 
-def run_space_check(pid, tier, jobs, rule, assumptions, budget_s=None, extra_finish=None):
+def run_space_check(pid, tier, jobs, rule, assumptions, budget_s=None, extra_finish=None, confirm=None, witness=None):
     """Run analysis.analyze over all jobs, aggregate, confirm, write evidence. Returns exit code."""
     chk = run.Check(pid, tier, rule)
     chk.assumptions = assumptions
@@ -88,6 +88,9 @@ def run_space_check(pid, tier, jobs, rule, assumptions, budget_s=None, extra_fin
         if r.get("nontrivial"):
             if r["A_digest"] not in a_digests:
                 a_digests.add(r["A_digest"])
+        if r.get("post_checked"):
+            chk.cov["reported_solutions_checked"] = chk.cov.get("reported_solutions_checked", 0) + r["post_checked"]
+            chk.cov["traces_validated_against_impl"] += r["post_checked"]
         chk.family(fam, programs=1, admitted=st["admitted"], checks=st["checks"],
                    invalid_admitted=r["ref"]["invalid"], lost=r.get("lost", 0))
         if r.get("capped"):
@@ -107,4 +110,4 @@ def run_space_check(pid, tier, jobs, rule, assumptions, budget_s=None, extra_fin
     chk.cov["rule"] = rule
     if extra_finish:
         extra_finish(chk)
-    return chk.finish(confirm=confirm_instance, witness_runner=witness_still_fails)
+    return chk.finish(confirm=confirm or confirm_instance, witness_runner=witness or witness_still_fails)
